@@ -11,7 +11,7 @@ ASSUMPTIONS = ["which of several identical staged files survives deduplication o
                "commit and upgrade always pass --created so that inventories are comparable byte for byte; author name/address come from the command line, not from a config file",
                "purge is driven with --force (the interactive prompt is not exercised)"]
 CORRESPONDENCE = "Cli.translate / Cli.*Exit (lean/RocflModel/Cli.lean) vs the rocfl binary (src/bin/rocfl.rs, src/cmd/*.rs)"
-BUDGET = {"quick": dict(histories=40, ops=16, vcases=14, seconds=170), "thorough": dict(histories=300, ops=30, vcases=300, seconds=1700)}
+BUDGET = {"quick": dict(histories=110, ops=16, vcases=14, seconds=170), "thorough": dict(histories=300, ops=30, vcases=300, seconds=1700)}
 RULE = ("operation histories (new/cp/mv/rm/reset/commit/upgrade/purge/cat with their semantic options, binary file contents, partial failures, usage errors) run through the binary and, "
         "via the model's translation, through the library, compared step by step (status, cat bytes, listings, trees); plus validate invocations (-p -n -l -e -w, object and repository mode) on "
         "repositories with injected object and storage problems; distinct non-trivial = distinct (sub-command, options, exit status)")
@@ -98,7 +98,7 @@ def gen_op(rng, ids, files, known=None):
     def lp():
         if have and rng.random() < 0.7:
             p = rng.choice(have)
-            return p if rng.random() < 0.8 or "/" not in p else p.rsplit("/", 1)[0]
+            return p if rng.random() < 0.65 or "/" not in p else p.rsplit("/", 1)[0]
         return rng.choice(["a.txt", "b.bin", "dir", "dir/c.txt", "x/y.txt", "new.txt", "e", "*", "dir/*", "missing"])
     if kind == "new":
         a = ["new"]
